@@ -4,7 +4,7 @@ The V drivers of the checks are random generators.  This engine runs the tests o
 (${VERIF_REPO:-/repo}/tests/test_*.py when that tree has tests, else /repo/tests; always with
 ${VERIF_REPO:-/repo}/src first on sys.path) under pytest in worker processes with the recorder plugin
 harness/suiteplug.py, which writes one NDJSON event per public call of a Wtp context, and has TLC
-validate what was recorded against the existing trace specifications:
+validate what was recorded against the trace specifications:
 
   C01  every distinct text handed to parse() in the suite -> the real parser, three modes (c01.check_batch:
        no exception, clean parser state, tree judged by Trace_WikiTree / WellFormed); the trees the tests
@@ -14,23 +14,22 @@ validate what was recorded against the existing trace specifications:
        len(expand_stack) and the list lengths at entry and return and the stamps of the messages a call
        appended -> spec/Trace_SuiteStack.tla (the text-independent part of Session.tla)
   C10  per context, the add_page / get_page / page_exists / get_page_resolve_redirect / get_page_body
-       history -> spec/Trace_PageStore.tla (titles tokenised as in harness/c10.py)
+       history -> spec/Trace_PageStore.tla (titles tokenised into the atoms of PageStore.tla)
   C19  every distinct text handed to parse() -> parse -> node_to_wikitext -> parse -> ... judged by
        spec/Trace_Unparse.tla (c19.judge_texts); VIOLATION only when the document lies in the fragment
-       the statement covers (see in_fragment), DRIFT otherwise
+       the statement covers (in_fragment), DRIFT otherwise
 
 A failing test assertion is never a verdict: only the recorded calls matter (the ~266 Lua tests run
-with the offline stand-ins and many of their assertions fail).
+with the offline stand-ins and some of their assertions fail).
 
 extend(o, tier, pid) adds the engine's work to the Outcome of check `pid`; replay(case) re-runs a
 reported case.  Nothing is cached between runs; inside one run the recording is shared by the stages.
 """
 from __future__ import annotations
 
-import hashlib
+import copy
 import json
 import os
-import re
 import subprocess
 import sys
 import time
@@ -39,15 +38,14 @@ from pathlib import Path
 from urllib.parse import quote_plus
 
 import common
-from common import Outcome, Scratch, tlc
+from common import Outcome, Scratch, pmap, tlc
 
 HARNESS = Path(__file__).resolve().parent
 PY = sys.executable
-FILES = ["test_parser.py", "test_node_expand.py", "test_wikiprocess.py", "test_lua.py", "test_parserfns.py", "test_dumpparser.py"]
-# (file, number of shards) - test_wikiprocess.py is by far the longest
+# thorough tier: the whole suite; file -> number of shards (test_wikiprocess.py is by far the longest)
 THOROUGH_PLAN = {"test_wikiprocess.py": 14, "test_parser.py": 4, "test_node_expand.py": 1, "test_lua.py": 2,
                  "test_parserfns.py": 1, "test_dumpparser.py": 1}
-# quick tier: a subset per check, sized to stay within ~15 s on a loaded machine
+# quick tier: a subset per check, sized so that the engine adds <= ~15 s on a loaded 16-core machine
 #   file -> (number of shards the file is cut into, the shards that are run)
 QUICK_PLAN = {
     "C01": {"test_parser.py": (4, [0, 1, 2, 3]), "test_node_expand.py": (1, [0])},
@@ -55,12 +53,19 @@ QUICK_PLAN = {
     "C16": {"test_wikiprocess.py": (24, [0, 5, 11, 17])},
     "C10": {"test_wikiprocess.py": (24, [0, 5, 11, 17]), "test_node_expand.py": (1, [0])},
 }
-KINDS5 = ["errors", "warnings", "debugs", "notes", "wiki_notices"]
+NONE = "<None>"
+NONS = 9999
+
+
+def plan_for(tier: str, pid: str) -> dict:
+    if tier == "thorough":
+        return {f: (n, list(range(n))) for f, n in THOROUGH_PLAN.items()}
+    return QUICK_PLAN[pid]
 
 
 def tests_dir() -> Path:
-    """The tests come from the same tree as the source when that tree has them (VERIF_REPO copies made by
-    tools/mutant.sh hold src only: then /repo/tests)."""
+    """The tests come from the same tree as the source when that tree has them (the VERIF_REPO copies made
+    by tools/mutant.sh hold src only: then /repo/tests)."""
     t = common.REPO / "tests"
     if t.is_dir() and any(t.glob("test_*.py")):
         return t
@@ -75,27 +80,33 @@ class Recording:
     def __init__(self):
         self.events: list = []      # event records, each with "sh" (shard number)
         self.tests: dict = {}       # test id -> {"ok", "exc", "msg"}
-        self.trees: list = []       # {"sh","c","n","h","dump"}
+        self.trees: list = []       # {"sh", "c", "n", "h", "klen", "dump"}
         self.treerefs: list = []
-        self.ns: dict = {}          # lang_code -> {"data","local"}
-        self.notes: dict = {}       # reason -> count (recorder-side skips / failures)
+        self.ns: dict = {}          # lang_code -> {"data", "local"}
+        self.notes: dict = {}       # recorder-side skips / failures: reason -> count
         self.shards = 0
         self.wall = 0.0
         self.files: list = []
-        self.pytest_summaries: list = []
+        self.tests_from = ""
 
-    def contexts(self):
-        """{(shard, cid): [events in order]}"""
-        by = {}
+    def contexts(self) -> dict:
+        """{(shard, cid): [events in call-return order]}"""
+        by: dict = {}
         for e in self.events:
             by.setdefault((e["sh"], e["c"]), []).append(e)
         for v in by.values():
             v.sort(key=lambda e: e["n"])
         return by
 
+    def summary(self) -> dict:
+        return {"tests_from": self.tests_from, "files": self.files, "shards": self.shards, "tests_run": len(self.tests),
+                "tests_passed": sum(1 for t in self.tests.values() if t["ok"]),
+                "events_recorded": len(self.events), "contexts": len({(e["sh"], e["c"]) for e in self.events}),
+                "recording_wall_s": round(self.wall, 1), "recorder_notes": self.notes}
 
-def _run_shard(args):
-    k, d, tdir, fname, i, n, want_trees, timeout = args
+
+def _run_shard(job):
+    k, d, tdir, fname, i, n, want_trees, timeout, only = job
     out = d / f"s{k}.ndjson"
     tmp = d / f"tmp{k}"
     tmp.mkdir()
@@ -103,58 +114,64 @@ def _run_shard(args):
     env.update({
         "PYTHONPATH": f"{common.REPO / 'src'}{os.pathsep}{HARNESS}",
         "PYTHONDONTWRITEBYTECODE": "1", "PYTHONHASHSEED": "0",
-        "SUITETRACE_OUT": str(out), "SUITETRACE_SHARD": f"{i}/{n}", "SUITETRACE_TREES": "1" if want_trees else "0",
+        "SUITETRACE_OUT": str(out), "SUITETRACE_SHARD": f"{i}/{n}" if not only else "",
+        "SUITETRACE_TREES": "1" if want_trees else "0", "SUITETRACE_LUA": "1",
         "TMPDIR": str(tmp), "VERIF_REPO": str(common.REPO),
     })
-    cmd = [PY, "-m", "pytest", "-q", "-x" if False else "-q", "-p", "suiteplug", "-p", "no:cacheprovider", "-p", "no:randomly",
-           f"--timeout={timeout}", "--no-header", "-o", "addopts=", "--rootdir", str(tdir.parent), "-c", os.devnull,
-           str(Path("tests") / fname)]
-    t0 = time.time()
+    targets = [str(Path("tests") / fname)] if not only else only
+    cmd = [PY, "-m", "pytest", "-q", "-q", "-p", "suiteplug", "-p", "no:cacheprovider", f"--timeout={timeout}",
+           "--rootdir", str(tdir.parent), "-c", os.devnull] + targets
     try:
         p = subprocess.run(cmd, cwd=str(tdir.parent), env=env, capture_output=True, text=True, timeout=timeout * 6 + 120)
-        tail = (p.stdout.strip().splitlines() or [""])[-1]
+        lines = (p.stdout + p.stderr).strip().splitlines()
+        tail = lines[-1] if lines else ""
         rc = p.returncode
     except subprocess.TimeoutExpired:
-        tail, rc = "TIMEOUT of the shard", -9
-    return k, out, rc, tail, time.time() - t0
+        tail, rc = "shard timed out", -9
+    return k, out, rc, tail
 
 
-def record(plan: dict, want_trees: bool = True, per_test_timeout: int = 120, only: list | None = None) -> tuple:
-    """plan: file -> (nshards, [shards to run]).  Returns (Recording, scratch) ; the caller parses inside the
-    scratch context.  `only`: test ids (replay) - overrides the plan."""
-    raise NotImplementedError
+_CACHE: dict = {}     # recordings of THIS run (process); never written anywhere
 
 
-def run_recording(plan: dict, want_trees: bool = True, per_test_timeout: int = 120) -> Recording:
+def run_recording(plan: dict, want_trees: bool = True, per_test_timeout: int = 120, only: list | None = None) -> Recording:
+    key = common.json_key([plan, want_trees, only])
+    if key in _CACHE:
+        return _CACHE[key]
     tdir = tests_dir()
     rec = Recording()
+    rec.tests_from = str(tdir)
     t0 = time.time()
     with Scratch("suite-") as d:
         jobs = []
-        for fname, (n, which) in plan.items():
-            if not (tdir / fname).exists():
-                rec.notes[f"test file absent: {fname}"] = 1
-                continue
-            rec.files.append(fname)
-            for i in which:
-                jobs.append((len(jobs), d, tdir, fname, i, n, want_trees, per_test_timeout))
-        # longest first
-        jobs.sort(key=lambda j: 0 if j[3] == "test_wikiprocess.py" else 1)
+        if only:
+            jobs.append((0, d, tdir, "", 0, 1, want_trees, per_test_timeout, only))
+        else:
+            for fname, (n, which) in plan.items():
+                if not (tdir / fname).exists():
+                    rec.notes[f"test file absent: {fname}"] = 1
+                    continue
+                rec.files.append(fname)
+                for i in which:
+                    jobs.append((len(jobs), d, tdir, fname, i, n, want_trees, per_test_timeout, None))
+        jobs.sort(key=lambda j: 0 if j[3] == "test_wikiprocess.py" else 1)     # longest first
         with ThreadPoolExecutor(min(16, max(1, len(jobs)))) as ex:
             results = list(ex.map(_run_shard, jobs))
         src = str(common.REPO / "src")
-        for k, out, rc, tail, wall in results:
+        for k, out, rc, tail in results:
             rec.shards += 1
-            rec.pytest_summaries.append(tail[:120])
+            if rc == 5:          # no test collected in this shard
+                continue
             if rc not in (0, 1):
-                # 0 = all passed, 1 = some tests failed (irrelevant); anything else: the recording is incomplete
-                if rc == 5:      # no tests collected in this shard
-                    continue
-                raise common.TLCError(f"suite recording shard {k} ended with pytest exit status {rc}: {tail}")
+                # 0 = all passed, 1 = some tests failed (irrelevant here); anything else: the recording is incomplete
+                raise common.TLCError(f"suite recording shard {k} ended with pytest exit status {rc}: {tail[:300]}")
             if not out.exists():
-                raise common.TLCError(f"suite recording shard {k} wrote no events: {tail}")
+                raise common.TLCError(f"suite recording shard {k} wrote no events: {tail[:300]}")
             _load(rec, out, k, src)
     rec.wall = time.time() - t0
+    if not rec.events:
+        raise common.TLCError("the suite recording is empty")
+    _CACHE[key] = rec
     return rec
 
 
@@ -186,5 +203,852 @@ def _load(rec: Recording, path: Path, sh: int, src: str) -> None:
                 if r.get("absent"):
                     rec.notes["public methods absent from Wtp: " + ",".join(r["absent"])] = 1
             elif k in ("treeskip", "recfail"):
-                key = f"{k}: {r.get('why', '')[:80]}"
+                key = f"{k}: {str(r.get('why', ''))[:80]}"
                 rec.notes[key] = rec.notes.get(key, 0) + 1
+
+
+def _skip(sk: dict, why: str, n: int = 1) -> None:
+    sk[why] = sk.get(why, 0) + n
+
+
+def text_of(e):
+    t = e["a"].get("text") if isinstance(e.get("a"), dict) else None
+    return t.get("s") if isinstance(t, dict) else None
+
+
+def parse_texts(rec: Recording, sk: dict):
+    """Distinct texts handed to parse() (top-level or nested), in first-seen order -> [(text, first event)]."""
+    seen, out = set(), []
+    for e in rec.events:
+        if e["op"] != "parse":
+            continue
+        t = text_of(e)
+        if t is None:
+            _skip(sk, "parse text not recorded (longer than the cap or not a string)")
+            continue
+        if t in seen:
+            continue
+        seen.add(t)
+        if any(0x10203D <= ord(ch) <= 0x10FFF0 for ch in t):
+            _skip(sk, "text contains characters of the reserved private-use range (documented assumption)")
+            continue
+        out.append((t, e))
+    return out
+
+
+# ---------------------------------------------------------------------------
+# C01
+# ---------------------------------------------------------------------------
+
+def stage_c01(o: Outcome, rec: Recording, info: dict) -> None:
+    import c01
+    import parsetree as pt
+
+    sk = info.setdefault("skipped", {})
+    texts = parse_texts(rec, sk)
+    # (the check's own parsing context has no Lua: a text that invokes a module is judged on the tree the test
+    #  itself obtained, see (A))
+    docs = [t for t, _ in texts if "#invoke" not in t.lower()]
+    if len(docs) < len(texts):
+        _skip(sk, "text invokes a Lua module: not parsed alone (no Lua in that context), judged on the recorded tree", len(texts) - len(docs))
+    info["distinct_parse_texts"] = len(docs)
+    # (B) every distinct text through the real parser alone (fresh context, started page, three modes):
+    #     exceptions, parser state, trees judged by TLC - the machinery of the check itself
+    c01.check_batch(o, docs, "suite")
+    # a parse() that raised inside the suite although the test did not expect it: the text was just re-run
+    # alone by check_batch (a raise there is reported as a violation of class exception:*); here only the
+    # book-keeping of what happened inside the suite
+    raised = [e for e in rec.events if e["op"] == "parse" and e.get("exc")]
+    escaped = [e for e in raised if not rec.tests.get(e["t"], {}).get("ok", True) and rec.tests[e["t"]].get("exc") == e["exc"]]
+    info["parse_raised_in_suite"] = {"total": len(raised), "escaped_the_test": len(escaped)}
+    reported = {v["case"].get("text") for v in o.violations if str(v.get("cls", "")).startswith("exception:")}
+    for e in escaped:
+        t = text_of(e)
+        if t is not None and t not in reported:
+            o.note_drift({"suite": "parse() raised inside the test but not when the text is parsed alone on a started page",
+                          "test": e["t"], "exception": e["exc"], "text": t[:300]})
+    # (A) the trees the tests themselves obtained, dumped by the recorder
+    by_key = {(e["sh"], e["c"], e["n"]): e for e in rec.events if e["op"] == "parse"}
+    entries, meta = [], []
+    seen = set()
+    for tr in rec.trees:
+        if tr["h"] in seen:
+            continue
+        seen.add(tr["h"])
+        dump = tr["dump"]
+        ev = by_key.get((tr["sh"], tr["c"], tr["n"]), {})
+        if tr["klen"] <= c01.SLICE_LIMIT and c01.depth_of(dump) <= c01.DEPTH_LIMIT:
+            entries.append(("NONE", json.dumps(dump, separators=(",", ":"))))
+            meta.append(ev)
+            if len(pt.kinds_in(dump)) >= 2:
+                o.shape("suiteW" + tr["h"])
+        else:
+            seen_sl = set()
+            for pk, sl in c01.slices(dump):
+                k2 = pk + "/" + pt.shape_key(sl)
+                if k2 in seen_sl:
+                    continue
+                seen_sl.add(k2)
+                entries.append((pk, json.dumps(sl, separators=(",", ":"))))
+                meta.append(ev)
+    bad = c01.validate_parallel(o, entries, "Trace_WikiTree[trees recorded in the suite]")
+    info["recorded_trees_validated"] = {"distinct_shapes": len(seen), "entries_incl_slices": len(entries), "ill_formed": len(bad)}
+    o.evaluations += len(rec.trees) + len(rec.treerefs)
+    o.traces += len(seen)
+    for j, faults in bad.items():
+        ev = meta[j]
+        faults = sorted(faults)
+        case = {"kind": "recorded-tree", "origin": "suite-recorded", "test": ev.get("t"), "text": (text_of(ev) or "")[:3000],
+                "options": {k: ev.get("a", {}).get(k) for k in ("pre_expand", "expand_all", "kw")}, "faults": faults,
+                "tree": entries[j][1][:1500]}
+        why = f"tree returned by parse() inside {ev.get('t')} is not well-formed: {', '.join(faults)}"
+        devs = sorted({c01.FAULT_DEVIATION[f] for f in faults}) if all(f in c01.FAULT_DEVIATION for f in faults) else []
+        o.classify(case, why, devs, cls="suite-wf:" + ",".join(faults))
+    # parser state after every top-level parse() of the suite that returned
+    nflag = 0
+    for e in rec.events:
+        if e["op"] != "parse" or e["nested"] or e.get("exc"):
+            continue
+        flags = e["r"].get("flags")
+        if not isinstance(flags, dict) or flags.get("stack", -1) < 0:
+            _skip(sk, "parser state not observable")
+            continue
+        nflag += 1
+        if flags != pt.CLEAN_FLAGS:
+            case = {"kind": "recorded-flags", "origin": "suite-recorded", "test": e["t"], "text": (text_of(e) or "")[:3000], "flags": flags}
+            only_pre = {k: v for k, v in flags.items() if v != pt.CLEAN_FLAGS[k]} == {"pre_parse": True}
+            why = f"parser state left behind after parse() inside {e['t']}: {flags}"
+            if only_pre:
+                o.classify(case, why, [c01.DEV_PRE], cls="suite-pre_parse-left-set")
+            else:
+                o.violation(case, why, cls="suite-state-left-behind")
+    info["top_level_parses_with_state_checked"] = nflag
+    o.evaluations += nflag
+
+
+# ---------------------------------------------------------------------------
+# C16
+# ---------------------------------------------------------------------------
+STACK_OPS = {"__init__": "init", "start_page": "start_page", "start_section": "start_section", "start_subsection": "start_subsection",
+             "expand": "expand", "parse": "parse", "to_return": "to_return", "error": "error", "warning": "warning",
+             "debug": "debug", "note": "note", "wiki_notice": "wiki_notice"}
+STACK_VIOL = ("path_restored", "lists_emptied", "msg_keys", "msg_title", "msg_section")
+STACK_WHY = {
+    "path_restored": "expand()/parse() returned but the expansion path is not what it was before the call",
+    "lists_emptied": "a message list is not empty right after start_page",
+    "msg_keys": "a recorded message lacks the documented keys (msg, trace, title, section, subsection, called_from, path as a tuple)",
+    "msg_title": "a recorded message is not stamped with the current page title",
+    "msg_section": "a recorded message is not stamped with the current section",
+}
+STACK_CFG = "SPECIFICATION Spec\nINVARIANT Verdict\nPOSTCONDITION Accepted\nCHECK_DEADLOCK FALSE\n"
+
+
+def stack_events(rec: Recording, sk: dict):
+    """Events of the alphabet of Trace_SuiteStack, context by context; -> (events for TLC, the recorded events)."""
+    out, src = [], []
+    for tid, ((sh, cid), evs) in enumerate(sorted(rec.contexts().items())):
+        if not any(e["op"] == "__init__" for e in evs):
+            _skip(sk, "context without a recorded __init__")
+            continue
+        evs = sorted(evs, key=lambda e: (e["op"] != "__init__", e["n"]))
+        if any(set(e.get("pat", [])) & set(STACK_OPS) for e in evs):
+            _skip(sk, "the test replaces a recorded method of Wtp (mock)")
+            continue
+        if any(min(e["es0"], e["es"], *e["m0"], *e["m"]) < 0 for e in evs):
+            _skip(sk, "expand_stack / message lists not observable on this context")
+            continue
+        for e in evs:
+            op = STACK_OPS.get(e["op"])
+            if op is None:
+                continue
+            if e["nested"] and op not in ("expand", "parse"):
+                continue          # nested message methods / start_* are part of the enclosing call
+            out.append({"cid": tid, "op": op, "nested": bool(e["nested"]), "exc": e.get("exc") or "", "es0": e["es0"], "es": e["es"],
+                        "m0": e["m0"], "m": e["m"], "st0": e["st0"], "st": e["st"], "title": e["title"], "section": e["section"],
+                        "nm": e.get("nm", [])})
+            src.append(e)
+    return out, src
+
+
+def validate_stack(events, timeout=1200):
+    with Scratch("suite-t-") as d:
+        tf = d / "trace.json"
+        tf.write_text(json.dumps({"events": events}))
+        r = tlc("Trace_SuiteStack", "trace.cfg", cfg_text=STACK_CFG, workers=1, env={"TRACE_FILE": str(tf)}, timeout=timeout)
+    v = r.tagged("VERDICT")
+    if not v or v[0]["consumed"] != len(events):
+        raise common.TLCError("Trace_SuiteStack did not consume its trace")
+    return r, v[0]["bad"]
+
+
+def brief_event(e):
+    t = text_of(e)
+    d = {"op": e["op"], "nested": e["nested"], "exc": e.get("exc"), "stack_before": e["es0"], "stack_after": e["es"],
+         "lists_before": e["m0"], "lists_after": e["m"], "title": e["title"], "section": e["section"]}
+    if t is not None:
+        d["text"] = t[:1500]
+    if "kw" in e.get("a", {}):
+        d["options"] = e["a"]["kw"] + [k for k in ("pre_expand", "expand_all") if e["a"].get(k)]
+    if e.get("nm"):
+        d["new_messages"] = e["nm"][:3]
+    return d
+
+
+def judge_stack(o: Outcome, events, src, bad, info: dict) -> None:
+    seen_drift = set()
+    for b in bad:
+        e = src[b["i"] - 1]
+        clauses = sorted(b["clauses"])
+        viol = [c for c in clauses if c in STACK_VIOL]
+        # the events of this context up to the failing one (for the report)
+        hist = [x["op"] for x in src[: b["i"]] if (x["sh"], x["c"]) == (e["sh"], e["c"]) and not x["nested"]][-8:]
+        case = {"kind": "stack", "test": e["t"], "event": brief_event(e), "clauses": clauses, "calls_before": hist,
+                "model_state": b.get("model")}
+        if viol:
+            o.violation(case, f"inside {e['t']}, after {e['op']}(): " + "; ".join(STACK_WHY[c] for c in viol) + f" [clauses: {', '.join(clauses)}]",
+                        cls="suite-" + viol[0])
+        else:
+            key = (tuple(clauses), e["op"])
+            info.setdefault("drift_clauses", {})
+            for c in clauses:
+                info["drift_clauses"][c] = info["drift_clauses"].get(c, 0) + 1
+            if key not in seen_drift:
+                seen_drift.add(key)
+                o.note_drift({"suite": "Trace_SuiteStack", "clauses": clauses, "case": case})
+
+
+def stage_c16(o: Outcome, rec: Recording, info: dict) -> None:
+    sk = info.setdefault("skipped", {})
+    events, src = stack_events(rec, sk)
+    if not events:
+        o.note_drift({"suite": "no context of the suite could be encoded for Trace_SuiteStack", "skipped": sk})
+        return
+    r, bad = validate_stack(events)
+    o.add_tlc("Trace_SuiteStack[suite]", r)
+    top = [e for e in src if not e["nested"]]
+    info["contexts_validated"] = len({e["cid"] for e in events})
+    info["events_validated"] = len(events)
+    info["top_level_calls"] = {op: sum(1 for e in top if e["op"] == op) for op in sorted({e["op"] for e in top})}
+    info["nested_expand_parse_calls"] = sum(1 for e in src if e["nested"])
+    info["calls_that_raised"] = sum(1 for e in src if e.get("exc"))
+    info["messages_with_stamps_checked"] = sum(len(e["nm"]) for e in events if not e["nested"] and e["st"] == e["st0"])
+    o.traces += info["contexts_validated"]
+    o.evaluations += len(events)
+    for e in top:
+        if e["op"] in ("expand", "parse") and text_of(e) is not None:
+            o.shape(("suite", e["op"], common.json_key(e["a"].get("kw")), hash(text_of(e))))
+    judge_stack(o, events, src, bad, info)
+    ex = next((e for e in top if e["op"] == "expand"), None)
+    if ex:
+        o.sample({"suite_event": brief_event(ex), "test": ex["t"]})
+
+
+# ---------------------------------------------------------------------------
+# C10
+# ---------------------------------------------------------------------------
+STORE_OPS = ("add_page", "get_page", "page_exists", "get_page_resolve_redirect", "get_page_body")
+STORE_CFG = "SPECIFICATION TSpec\nINVARIANT Verdict\nINVARIANT Coherent\nPOSTCONDITION Accepted\nCHECK_DEADLOCK FALSE\n"
+
+
+class Odd(Exception):
+    """A title / argument outside what the atom abstraction of PageStore.tla can express."""
+
+
+class StoreUniverse:
+    """Atom tables of spec/PageStore.tla for the namespaces of a real context (taken from the recording:
+    NAMESPACE_DATA / LOCAL_NS_NAME_BY_ID of the contexts the tests created)."""
+
+    def __init__(self, nsrec: dict):
+        self.low: dict = {}        # lower-cased prefix incl. ':' -> namespace id (None = ambiguous)
+        for key, v in nsrec["data"].items():
+            names = [v["name"]] + list(v.get("aliases", [])) + ([key] if key != v["name"] else [])
+            for nm in names:
+                p = nm.lower() + ":"
+                self.low[p] = v["id"] if self.low.get(p, v["id"]) == v["id"] else None
+        self.canon = {str(i): n + ":" for i, n in nsrec["local"].items() if int(i) != 0}
+        self.pfxns: dict = {}
+        self.upper: dict = {}
+
+    def known_ns(self, ns) -> bool:
+        return ns == 0 or str(ns) in self.canon
+
+    def tok(self, s: str) -> list:
+        """Canonical tokenisation: ["Main:"]? prefix atoms* first-character atom, then words / SP / US."""
+        if not isinstance(s, str) or s == NONE:
+            raise Odd("title is not a string")
+        atoms = []
+        if s.startswith("Main:"):
+            atoms.append("Main:")
+            s = s[5:]
+        while True:
+            i = s.find(":")
+            if i <= 0:
+                break
+            p = s[: i + 1].replace("_", " ")
+            ns = self.low.get(p.lower(), "-")
+            if ns == "-":
+                break
+            if ns is None:
+                raise Odd("prefix denotes two namespaces")
+            if p == "Main:":
+                raise Odd("'Main:' after the start of a title")
+            atoms.append(p)
+            self.pfxns[p] = ns
+            self.upper.setdefault(p, p[:1].upper() + p[1:])
+            s = s[i + 1:]
+        if s:
+            c = s[0]
+            if c == " ":
+                atoms.append("SP")
+            elif c == "_":
+                atoms.append("US")
+            else:
+                up = c.upper()
+                if len(up) != 1:
+                    raise Odd("first letter whose upper case is not one character")
+                atoms.append(c)
+                self.upper.setdefault(c, up)
+            word = ""
+            for ch in s[1:]:
+                if ch in " _":
+                    if word:
+                        atoms.append(word)
+                        word = ""
+                    atoms.append("SP" if ch == " " else "US")
+                else:
+                    word += ch
+            if word:
+                atoms.append(word)
+        if atoms == ["-"]:
+            raise Odd("title '-' is the model's marker for 'no redirect'")
+        return atoms
+
+    def tables(self) -> dict:
+        # every canonical prefix is a prefix atom of its namespace
+        pf = dict(self.pfxns)
+        for i, c in self.canon.items():
+            pf.setdefault(c, int(i))
+        return {"pfxns": pf, "canon": self.canon, "upper": self.upper}
+
+
+def _words_clash(s: str) -> bool:
+    """A title in which a word is spelled SP / US (the blank atoms of the model)."""
+    import re as _re
+
+    return any(w in ("SP", "US") for w in _re.split(r"[ _]", s[1:] if s else ""))
+
+
+def abs_result(u: StoreUniverse, r: dict) -> dict:
+    if not r.get("found"):
+        return {"found": False, "title": [], "ns": 0, "redirect": ["-"], "body": "", "model": ""}
+    if r["ns"] is None:
+        raise Odd("page stored without a namespace id")
+    if _words_clash(r["title"]) or (r["redirect"] is not None and _words_clash(r["redirect"])):
+        raise Odd("word spelled like a blank atom")
+    return {"found": True, "title": u.tok(r["title"]), "ns": r["ns"],
+            "redirect": u.tok(r["redirect"]) if r["redirect"] is not None else ["-"],
+            "body": r["body"] or "", "model": r["model"] or ""}
+
+
+def store_events(rec: Recording, sk: dict):
+    """-> (universe, events for Trace_PageStore, the recorded event behind each of them (None for reset))."""
+    if not rec.ns:
+        raise common.TLCError("the recording holds no namespace table")
+    langs = sorted(rec.ns)
+    u = StoreUniverse(rec.ns["en"] if "en" in rec.ns else rec.ns[langs[0]])
+    lang = "en" if "en" in rec.ns else langs[0]
+    out, src = [], []
+    shared_db: dict = {}
+    for e in rec.events:
+        if e["op"] == "__init__":
+            dbp = e["r"].get("db_path") or e["a"].get("db_path")
+            shared_db[(e["sh"], dbp)] = shared_db.get((e["sh"], dbp), 0) + 1
+    for tid, ((sh, cid), evs) in enumerate(sorted(rec.contexts().items())):
+        init = next((e for e in evs if e["op"] == "__init__"), None)
+        if init is None:
+            _skip(sk, "context without a recorded __init__")
+            continue
+        if init.get("exc"):
+            continue
+        if init["a"].get("lang_code", "en") != lang:
+            _skip(sk, "context of another language edition (other namespace table)")
+            continue
+        if any(set(e.get("pat", [])) & set(STORE_OPS) for e in evs):
+            _skip(sk, "the test replaces a page-store method of Wtp (mock)")
+            continue
+        dbp = init["r"].get("db_path") or init["a"].get("db_path")
+        if dbp is not None and shared_db.get((sh, dbp), 0) > 1:
+            _skip(sk, "database file used by more than one context (the store is not this context's alone)")
+            continue
+        out.append({"op": "reset", "tid": tid})
+        src.append(None)
+        for e in evs:
+            if e["op"] not in STORE_OPS or e.get("exc"):
+                continue
+            a, r = e["a"], e["r"]
+            try:
+                if e["op"] == "add_page":
+                    if a["ns"] is None:
+                        raise Odd("add_page without a namespace id")
+                    if not u.known_ns(a["ns"]):
+                        raise Odd("namespace id unknown to the namespace table")
+                    if a["model"] is None:
+                        raise Odd("add_page with model=None")
+                    if "_" in a["title"].split(":")[0] and ":" in a["title"]:
+                        raise Odd("add_page with an underscore in the prefix (assumption: dumps write spaces)")
+                    if a["ns"] == 0 and a["title"].startswith("Main:"):
+                        raise Odd("add_page of a 'Main:' title (stripped on the write side, deviation kept by C12)")
+                    if _words_clash(a["title"]) or (a["redirect"] is not None and _words_clash(a["redirect"])):
+                        raise Odd("word spelled like a blank atom")
+                    body = a["body"]
+                    if a.get("incl"):
+                        if not a.get("stored"):
+                            raise Odd("template body with inclusion markup and the includable part could not be determined")
+                        body = a["stored"]
+                    ev = {"op": "add", "tid": tid, "title": u.tok(a["title"]), "ns": a["ns"],
+                          "redirect": u.tok(a["redirect"]) if a["redirect"] is not None else ["-"],
+                          "body": body or "", "model": a["model"]}
+                else:
+                    if _words_clash(a["title"]):
+                        raise Odd("word spelled like a blank atom")
+                    ns = NONS if a["ns"] is None else a["ns"]
+                    if ns != NONS and not u.known_ns(ns):
+                        raise Odd("namespace id unknown to the namespace table")
+                    ev = {"tid": tid, "title": u.tok(a["title"]), "ns": ns, "nr": bool(a.get("nr", False))}
+                    if e["op"] == "get_page":
+                        ev.update(op="get", res=abs_result(u, r))
+                    elif e["op"] == "get_page_resolve_redirect":
+                        ev.update(op="resolve", res=abs_result(u, r))
+                    elif e["op"] == "page_exists":
+                        ev.update(op="exists", res={"found": bool(r.get("found"))})
+                    else:
+                        ev.update(op="body", res={"found": bool(r.get("found")), "body": r.get("body") or ""})
+            except Odd as x:
+                if e["op"] == "add_page":
+                    # the model's store would no longer be the real one: this context ends here
+                    _skip(sk, f"context cut at an add_page outside the abstraction: {x}")
+                    break
+                _skip(sk, f"lookup outside the abstraction: {x}")
+                continue
+            out.append(ev)
+            src.append(e)
+    return u, out, src
+
+
+def validate_store(u: StoreUniverse, events, timeout=1800):
+    with Scratch("suite-p-") as d:
+        tf = d / "trace.json"
+        tf.write_text(json.dumps({**u.tables(), "events": events}))
+        r = tlc("Trace_PageStore", "trace.cfg", cfg_text=STORE_CFG, workers=1, env={"TRACE_FILE": str(tf)}, timeout=timeout)
+    v = r.tagged("VERDICT")
+    if not v or v[0]["consumed"] != len(events):
+        raise common.TLCError("Trace_PageStore did not consume the suite trace")
+    return r, v[0]["bad"]
+
+
+def conc(atoms) -> str:
+    return "".join({"SP": " ", "US": "_"}.get(a, a) for a in atoms)
+
+
+def stage_c10(o: Outcome, rec: Recording, info: dict) -> None:
+    sk = info.setdefault("skipped", {})
+    u, events, src = store_events(rec, sk)
+    if not events:
+        o.note_drift({"suite": "no page-store history of the suite could be encoded", "skipped": sk})
+        return
+    r, bad = validate_store(u, events)
+    o.add_tlc("Trace_PageStore[suite]", r)
+    info["contexts_validated"] = sum(1 for e in events if e["op"] == "reset")
+    info["events_validated"] = len(events)
+    info["by_operation"] = {op: sum(1 for e in events if e["op"] == op) for op in ("add", "get", "resolve", "exists", "body")}
+    info["prefix_spellings"] = len(u.pfxns)
+    o.traces += info["contexts_validated"]
+    o.evaluations += len(events)
+    for e in events:
+        if e["op"] != "reset":
+            o.shape(("suite", e["op"], common.json_key(e.get("title")), e.get("ns")))
+    seen = set()
+    for b in bad:
+        ev = events[b["i"] - 1]
+        if b["tid"] in seen:
+            continue
+        seen.add(b["tid"])
+        start = max(i for i in range(b["i"]) if events[i]["op"] == "reset")
+        o.violation(
+            {"kind": "store", "test": src[b["i"] - 1]["t"], "universe": u.tables(), "events": events[start: b["i"]][-60:],
+             "events_cut": max(0, b["i"] - start - 60)},
+            f"inside {src[b['i'] - 1]['t']}: {ev['op']}({conc(ev['title'])!r}, ns={ev['ns']}) returned {ev['res']!r}; specification: {b['expected']!r}",
+            cls="suite-store:" + ev["op"])
+    sample = [e for e in events if e["op"] != "reset"][:4]
+    if sample:
+        o.sample({"suite_store_events": sample})
+
+
+# ---------------------------------------------------------------------------
+# C19
+# ---------------------------------------------------------------------------
+FRAG_KINDS = {"ROOT", "LEVEL1", "LEVEL2", "LEVEL3", "LEVEL4", "LEVEL5", "LEVEL6", "HLINE", "LIST", "LIST_ITEM", "TABLE",
+              "TABLE_CAPTION", "TABLE_ROW", "TABLE_HEADER_CELL", "TABLE_CELL", "HTML", "BOLD", "ITALIC", "LINK", "URL",
+              "TEMPLATE", "TEMPLATE_ARG", "PARSER_FN"}
+# characters that are wikitext markup when they stand in running text: a document of the structured grammar
+# does not hold them as text (literal double brackets are the exception the statement names)
+TEXT_MARKUP = set("|!{}<>'=*#;&_:")
+ARG_MARKUP = set("{}<>'&_")          # inside arguments of calls / links / URLs: = : / # | are part of the syntax
+import re as _re
+ATTR_NAME_RE = _re.compile(r"[A-Za-z][A-Za-z0-9-]*\Z")
+
+
+def in_fragment(t1: dict, messages: int):
+    """Is the document whose first parse tree is t1 (ptree2 abstraction) one of the statement's structured
+    grammar?  Conservative: a document that is not judged stays DRIFT only.  -> (bool, reason)"""
+    if messages:
+        return False, "the parser reported errors / warnings / debug messages (not a well-formed document)"
+
+    CALLS = ("TEMPLATE", "TEMPLATE_ARG", "PARSER_FN")
+    # what may stand where, as in spec/Gen_Unparse.tla: arguments of calls hold text, calls and links;
+    # link texts hold inline nodes but no further link; blocks stand in blocks only
+    ALLOWED = {"call": set(CALLS) | {"LINK", "URL"}, "link": set(CALLS) | {"BOLD", "ITALIC", "HTML"}, "block": FRAG_KINDS}
+
+    def walk(x, where):
+        if "s" in x:
+            bad = TEXT_MARKUP if where == "block" else ARG_MARKUP
+            for a in x["s"]:
+                if a in ("SP", "NL"):
+                    continue
+                if any(ch in bad for ch in a):
+                    return "markup character as text"
+            return None
+        if x["kind"] not in FRAG_KINDS:
+            return "node kind outside the grammar: " + x["kind"]
+        if x["kind"] not in ALLOWED[where]:
+            return f"{x['kind']} inside the arguments of a {where}"
+        for a in x["attrs"]:
+            if not ATTR_NAME_RE.match(a["n"]) or quote_plus(a["v"]) != a["v"]:
+                return "attribute value that is not URL-safe"
+        if x["kind"] == "HTML" and (len(x["sarg"]) != 1 or not x["sarg"][0].isalnum()):
+            return "odd tag name"
+        inner = where
+        if x["kind"] in CALLS:
+            inner = "call"
+        elif x["kind"] in ("LINK", "URL") and where != "call":
+            inner = "link"
+        if x["kind"] in CALLS + ("LINK", "URL"):
+            # a call / link of the grammar has a name / target
+            if not x["largs"] or not any("s" not in c or any(a not in ("SP", "NL") for a in c["s"]) for c in x["largs"][0]):
+                return "call or link without a name / target"
+        for lst in x["largs"]:
+            for c in lst:
+                r = walk(c, inner)
+                if r:
+                    return r
+        for lst in x["defn"]:
+            for c in lst:
+                r = walk(c, where)
+                if r:
+                    return r
+        for c in x["children"]:
+            r = walk(c, where)
+            if r:
+                return r
+        return None
+
+    r = walk(t1, "block")
+    return (r is None), (r or "")
+
+
+def classify_chunk(texts):
+    """[(index, text)] -> [(index, in fragment?, reason)] using the real parser of the working tree."""
+    import ptree2
+
+    common.use_repo()
+    out = []
+    with Scratch("suite-f-") as d:
+        ctx = ptree2.new_ctx(d)
+        try:
+            for i, t in texts:
+                try:
+                    root = ptree2.parse(ctx, t)
+                    nmsg = len(ctx.errors) + len(ctx.warnings) + len(ctx.debugs)
+                    ok, why = in_fragment(ptree2.node(root), nmsg)
+                except Exception as e:  # noqa: BLE001   (parse() raising is C01's business)
+                    ok, why = False, "parse raised " + type(e).__name__
+                out.append((i, ok, why))
+        finally:
+            ctx.db_conn.close()
+    return out
+
+
+def stage_c19(o: Outcome, rec: Recording, info: dict) -> None:
+    import c19
+
+    sk = info.setdefault("skipped", {})
+    texts = [t for t, _ in parse_texts(rec, sk)]
+    first_test = {t: e["t"] for t, e in parse_texts(rec, {})}
+    info["distinct_parse_texts"] = len(texts)
+    cls = dict((i, (ok, why)) for i, ok, why in pmap(classify_chunk, list(enumerate(texts))))
+    inside = [("suite/in", t) for i, t in enumerate(texts) if cls[i][0]]
+    outside = [("suite/out", t) for i, t in enumerate(texts) if not cls[i][0]]
+    reasons: dict = {}
+    for i in range(len(texts)):
+        if not cls[i][0]:
+            reasons[cls[i][1]] = reasons.get(cls[i][1], 0) + 1
+    info["in_fragment"] = len(inside)
+    info["outside_fragment_drift_only"] = {"count": len(outside), "reasons": reasons}
+    known = sorted(o.known)
+    njobs = 6
+
+    def cut(items, tag):
+        n = max(1, min(njobs, len(items) // 40 + 1))
+        return [(tag, ("texts", items[k::n], known)) for k in range(n)] if items else []
+
+    jobs = cut(inside, "in") + cut(outside, "out")
+    res = pmap(_c19_job, jobs, chunk=1)
+    tr = common.TLCResult("", 0, 0.0)
+    nbad_out = 0
+    for tag, summ in res:
+        tr.distinct += summ["trace"][0]
+        tr.generated += summ["trace"][1]
+        tr.wall = max(tr.wall, summ["trace"][2])
+        if tag == "in":
+            for b in summ["bad"]:
+                b["case"]["test"] = first_test.get(b["case"].get("text") or b["case"].get("from_document"))
+                b["cls"] = "suite " + b["cls"]
+            c19.absorb(o, summ)
+            info["direct_values_self_contained"] = info.get("direct_values_self_contained", 0) + summ["eligible"]
+        else:
+            o.evaluations += summ["n"]
+            o.drift_count += summ["drift"]
+            nbad_out += len(summ["bad"]) + len(summ["exceptions"])
+            for b in summ["bad"][:2]:
+                o.note_drift({"suite": "round trip of a document outside the statement's grammar is not equivalent",
+                              "why": b["why"][:300], "text": (b["case"].get("text") or b["case"].get("from_document") or "")[:300]})
+            o.drift_count += max(0, len(summ["bad"]) - 2) + len(summ["exceptions"])
+    o.add_tlc("Trace_Unparse[suite]", tr)
+    info["outside_fragment_not_equivalent"] = nbad_out
+    if inside:
+        o.sample({"suite_document_in_fragment": inside[len(inside) // 2][1][:400]}, cap=8)
+
+
+def _c19_job(jobs):
+    import c19
+    import ptree2
+
+    out = []
+    for tag, job in jobs:
+        if tag == "in":
+            out.append((tag, c19.pipeline_job([job])[0]))
+            continue
+        # outside the statement's grammar: the whole-document round trip only (no directly passed parts); whatever
+        # TLC says about it ends up as DRIFT
+        _, texts, known = job
+        summ = c19.new_summary()
+        recs = {}
+        common.use_repo()
+        with Scratch("suite-o-") as d:
+            ctx = ptree2.new_ctx(d)
+            try:
+                for i, (label, text) in enumerate(texts):
+                    try:
+                        recs[i] = c19.chain(ctx, text, None, i)
+                    except Exception as e:  # noqa: BLE001
+                        summ["exceptions"].append({"origin": label, "text": text, "exception": repr(e)})
+            finally:
+                ctx.db_conn.close()
+        summ["n"] = len(texts)
+        cases = sorted(recs.items())
+        if cases:
+            r = c19.trace_batch(known, cases, [])
+            summ["trace"] = list(r["tlc"])
+            for i, bd in r["bad"]:
+                summ["bad"].append({"case": {"text": texts[i][1]}, "why": ("first" if not bd["e12"] else "second") + f" round trip of {texts[i][1]!r} is not equivalent"})
+            summ["drift"] = len(r["drift"])
+        out.append((tag, summ))
+    return out
+
+
+# ---------------------------------------------------------------------------
+# entry points
+# ---------------------------------------------------------------------------
+STAGES = {"C01": stage_c01, "C16": stage_c16, "C10": stage_c10, "C19": stage_c19}
+RULES = {
+    "C01": "suite engine: every distinct text handed to parse() by the repository's tests is one case (parsed alone in three modes) and "
+           "every distinct shape of a tree the tests obtained is one case; both judged by TLC with WellFormed",
+    "C16": "suite engine: every context the repository's tests create is one trace (events start_page / expand / parse / message methods / "
+           "start_section / to_return with stack depth and list lengths at entry and return), validated by Trace_SuiteStack; distinct by "
+           "(operation, options, text) of top-level expand / parse calls",
+    "C10": "suite engine: the add_page / lookup history of every context the repository's tests create is one trace validated by "
+           "Trace_PageStore; distinct by (operation, title, namespace)",
+    "C19": "suite engine: every distinct text handed to parse() by the repository's tests is one round-trip case judged by Trace_Unparse; "
+           "VIOLATION only inside the statement's grammar (no parser messages, grammar node kinds, no markup characters as text, URL-safe "
+           "attribute values), DRIFT otherwise",
+}
+
+
+def extend(o: Outcome, tier: str, pid: str) -> None:
+    """Adds the suite engine's runs to the Outcome of check `pid` (never calls finish())."""
+    t0 = time.time()
+    common.use_repo()
+    plan = plan_for(tier, pid)
+    rec = run_recording(plan, want_trees=(pid == "C01"))
+    info = rec.summary()
+    info["tier_plan"] = {f: f"shards {w} of {n}" for f, (n, w) in plan.items()}
+    o.rule = (o.rule + " || " if o.rule else "") + RULES[pid]
+    o.assumptions = list(o.assumptions) + [
+        "suite engine: the repository's tests run with the offline Lua stand-ins installed into every context (harness/luastub.py); "
+        "test assertions are ignored, only the recorded calls are validated"]
+    # (common.with_engine wraps o.violation as (case, why, **kw) but Outcome.classify passes cls positionally)
+    v = o.violation
+    o.violation = lambda case, why, cls=None, **kw: v(case, why, cls=cls, **kw)
+    try:
+        STAGES[pid](o, rec, info)
+    finally:
+        o.violation = v
+    info["engine_wall_s"] = round(time.time() - t0, 1)
+    o.extra["suite"] = info
+
+
+def _as_case(case):
+    if isinstance(case, (str, Path)):
+        v = json.loads(Path(case).read_text())
+        return v.get("property"), v["case"], v.get("why", "")
+    if "case" in case and "property" in case:
+        return case["property"], case["case"], case.get("why", "")
+    return None, case, ""
+
+
+def replay(case) -> int:
+    """Re-runs a reported case on the current tree; 1 = still violating.  `case`: path of a replay file or
+    its parsed content.  Cases that name a test re-record that single test and validate it again."""
+    pid, c, why = _as_case(case)
+    common.use_repo()
+    print("why:", why)
+    kind = c.get("kind")
+    o = Outcome(pid or "C00", "quick")
+    info: dict = {}
+    if kind in ("stack", "store", "recorded-tree", "recorded-flags") and c.get("test"):
+        rec = run_recording({}, want_trees=(kind in ("recorded-tree", "recorded-flags")), only=[c["test"]])
+        print(f"re-recorded {c['test']}: {len(rec.events)} events")
+        if kind == "stack":
+            stage_c16(o, rec, info)
+        elif kind == "store":
+            stage_c10(o, rec, info)
+        else:
+            stage_c01(o, rec, info)
+        for v in o.violations:
+            print("still violating:", v["why"][:400])
+        return 1 if o.violations else 0
+    text = c.get("text") or c.get("from_document")
+    if text is None:
+        print(json.dumps(c, indent=1)[:2000])
+        return 1
+    if pid == "C19" or c.get("origin", "").startswith("suite/") or "wikitext1" in c or "wikitext" in c:
+        import c19
+
+        o.known = {}
+        summ = c19.new_summary()
+        c19.judge_texts([("replay", text)], [], summ)
+        c19.absorb(o, summ)
+        for v in o.violations:
+            print("still failing:", v["why"][:400])
+        return 1 if o.violations else 0
+    # C01: the text alone
+    import c01
+    import parsetree as pt
+
+    with Scratch("suite-r-") as d:
+        ctx = pt.new_ctx(d, templates=True)
+        root, err, flags = pt.parse(ctx, text, c.get("mode", "plain") if c.get("mode") in pt.MODES else "plain")
+        ctx.close_db_conn()
+    print("text :", repr(text[:500]))
+    print("error:", err, " flags:", flags)
+    if root is None:
+        return 1
+    _, bad = c01.validate_trees([("NONE", json.dumps(pt.dump_wf(root)))])
+    print("faults now:", bad.get(0, []))
+    return 0 if not bad and flags == pt.CLEAN_FLAGS else 1
+
+
+def selftest() -> int:
+    """Binding demo: the recorded events of a few tests are accepted by TLC; the same events with ONE
+    recorded field corrupted are rejected, with the clause named (stack trace, page-store trace, tree)."""
+    import c01
+
+    common.use_repo()
+    ok = True
+    rec = run_recording({"test_node_expand.py": (1, [0]), "test_wikiprocess.py": (48, [3])}, want_trees=True)
+    print(f"recorded {len(rec.tests)} tests, {len(rec.events)} events from {rec.tests_from}")
+    # ---- Trace_SuiteStack
+    events, src = stack_events(rec, {})
+    _, bad0 = validate_stack(events)
+    viol0 = [b for b in bad0 if set(b["clauses"]) & set(STACK_VIOL)]
+    print(f"(a) stack trace of {len(events)} events: violating clauses = {len(viol0)}")
+    ok &= not viol0
+    k = next(i for i, e in enumerate(events) if e["op"] == "expand" and not e["nested"] and not e["exc"])
+    ev2 = copy.deepcopy(events)
+    ev2[k]["es"] += 1
+    _, bad1 = validate_stack(ev2)
+    got = [(b["i"], sorted(b["clauses"])) for b in bad1 if b["i"] == k + 1]
+    print(f"    stack depth after expand corrupted in event {k + 1}: {got}")
+    ok &= bool(got) and "path_restored" in got[0][1]
+    k = next(i for i, e in enumerate(events) if e["op"] == "start_page")
+    ev3 = copy.deepcopy(events)
+    ev3[k]["m"][2] = 1
+    _, bad2 = validate_stack(ev3)
+    got = [(b["i"], sorted(b["clauses"])) for b in bad2 if b["i"] == k + 1]
+    print(f"    one debug message left after start_page in event {k + 1}: {got}")
+    ok &= bool(got) and "lists_emptied" in got[0][1]
+    k = next((i for i, e in enumerate(events) if e["nm"] and not e["nested"] and e["st"] == e["st0"] and e["op"] in ("expand", "parse")), None)
+    if k is not None:
+        ev4 = copy.deepcopy(events)
+        ev4[k]["nm"][0]["title"] = "CORRUPTED"
+        _, bad3 = validate_stack(ev4)
+        got = [(b["i"], sorted(b["clauses"])) for b in bad3 if b["i"] == k + 1]
+        print(f"    title stamp of a new message corrupted in event {k + 1}: {got}")
+        ok &= bool(got) and "msg_title" in got[0][1]
+    # ---- Trace_PageStore
+    u, sev, _ = store_events(rec, {})
+    _, sb0 = validate_store(u, sev)
+    print(f"(b) page-store trace of {len(sev)} events: bad = {len(sb0)}")
+    ok &= not sb0
+    k = next(i for i, e in enumerate(sev) if e["op"] in ("get", "resolve") and e["res"]["found"])
+    sev2 = copy.deepcopy(sev)
+    sev2[k]["res"]["body"] = "CORRUPTED"
+    _, sb1 = validate_store(u, sev2)
+    print(f"    body of a lookup result corrupted in event {k + 1}: bad = {[(b['i'], b['op']) for b in sb1][:3]}")
+    ok &= bool(sb1) and sb1[0]["i"] == k + 1
+    # ---- Trace_WikiTree on a recorded tree
+    tr = next(t for t in rec.trees if t["dump"]["ch"])
+    good = tr["dump"]
+    bad_tree = copy.deepcopy(good)
+    bad_tree["ch"].insert(0, {"s": {"n": 0, "hi": [], "c": []}})
+    _, tb = c01.validate_trees([("NONE", json.dumps(good)), ("NONE", json.dumps(bad_tree))])
+    print(f"(c) recorded tree: faults = {tb.get(0, [])}; with an empty string child inserted: {tb.get(1, [])}")
+    ok &= 0 not in tb and "empty-string-child" in tb.get(1, [])
+    print("selftest", "ok" if ok else "FAILED")
+    return 0 if ok else 1
+
+
+if __name__ == "__main__":
+    # /venv/bin/python harness/suitetrace.py selftest | run <ID> <tier>
+    sys.path.insert(0, str(HARNESS))
+    if len(sys.argv) > 1 and sys.argv[1] == "selftest":
+        sys.exit(selftest())
+    if len(sys.argv) > 3 and sys.argv[1] == "run":
+        import tempfile
+
+        own = tempfile.mkdtemp(prefix="suite-evidence-")
+        common.EVID = Path(own)
+        common.REPLAYS = Path(own) / "replays"
+        oo = Outcome(sys.argv[2], sys.argv[3])
+        try:
+            common.with_engine(oo, "suite", lambda: extend(oo, sys.argv[3], sys.argv[2]))
+            print(json.dumps(oo.extra["suite"], indent=1))
+            rc = oo.finish()
+        finally:
+            import shutil
+
+            if not oo.violations:
+                shutil.rmtree(own, ignore_errors=True)
+            else:
+                print("(evidence of this standalone run:", own, ")")
+        sys.exit(rc)
